@@ -329,6 +329,9 @@ for _op in ("OP_CHECKSIG", "OP_CHECKSIGVERIFY"):
     OBLIGATIONS.append(M("C15", f"c15_{_op[3:].lower()}_step_allflags", {"q": "checksig", "part": "single", "ops": [_op], "flags": None}, ["Interpreter::match_opcode (" + _op + ")", "checksig", "verify_tx_signature", "calculate_sighash_preimage", "SighashSignature::from_bytes_impl"],
                          "as the quick obligation with all 256 values of the flag byte (all fourteen SigHash values)", cost=20, tiers=("thorough",), timeout=5400))
 
+OBLIGATIONS.append(M("C16", "c16_interp_tx_total", {"q": "interp_tx_total"}, ["Interpreter::from_transaction", "Interpreter::match_opcode (OP_CHECKSIG, OP_CHECKMULTISIG)", "checksig", "multisig", "calculate_sighash_preimage", "verify_tx_signature"],
+                     "from_transaction: transactions with 0..2 inputs x every usize index; signature-opcode step: code-separator offset up to 3 beyond unlocking + locking script length (states reached through spliced conditional branches), OP_CHECKMULTISIG on stacks of 1..3 one-byte items with every declared count; sighash preimage, DER, point and ECDSA outcomes are accept-or-reject oracles", cost=1))
+
 
 def for_property(pid):
     return [dict(o) for o in OBLIGATIONS if o["property"] == pid]
